@@ -19,14 +19,14 @@ INVARIANT RoundTrip
 {extra}"""
 CFG_E = CFG_T.replace("SPECIFICATION TSpec", "SPECIFICATION Spec").replace("INVARIANT Conforms\nINVARIANT RoundTrip\n", "")
 Q = lambda xs: "{" + ", ".join(f'"{x}"' for x in xs) + "}"   # noqa: E731
-ALLK = ["str", "int", "cat", "negint", "float", "emptystr", "nanid", "mixed"]
+ALLK = ["str", "int", "cat", "negint", "float", "emptystr", "nanid", "mixed", "nullint", "catnan"]
 
 
 def run(ctx):
     q = ctx.quick
     ctx.rule = ("TLC checks OneRowPerIndividual, VisitsSorted, Aligned, CountsRight, PermutationInvariant (all row permutations) and "
                 "RejectsExactlyMalformed of Ingest.tla on every table of <= 3 rows (2 ids, ages incl. a pair equal after rounding "
-                "and NaN, values incl. NaN / inf; 1-2 features; 8 identifier typings; text columns). TLC enumerates every table "
+                "and NaN, values incl. NaN / inf; 1-2 features; 10 identifier typings; text columns). TLC enumerates every table "
                 "of <= 2 rows (3 in the thorough tier); each is built as a real DataFrame and ingested "
                 "(Data.from_dataframe, Dataset, to_pandas, re-ingestion); TLC compares the recorded canonical form, exception "
                 "class, tensor padding / mask / counters and the untouched input with Canon(table) (IngestTrace.tla), and checks "
